@@ -210,6 +210,7 @@ func genRecv(rt *rapid.T) RecvCase {
 	c.Env.SACK = rapid.Bool().Draw(rt, "sack")
 	c.Env.RcvBuf = rapid.SampledFrom([]int{8192, 65536, 1 << 20}).Draw(rt, "rcvbuf")
 	c.Env.MTU = 1500
+	c.Env.Pad = rapid.SampledFrom([]int{0, 0, 0, 46, 46, 1, 6}).Draw(rt, "linkpad")
 	c.TS = rapid.Bool().Draw(rt, "ts")
 	c.WS = rapid.SampledFrom([]int{-1, 0, 2, 7}).Draw(rt, "ws")
 	c.Chunk = rapid.SampledFrom([]int{0, 0, 1, 16}).Draw(rt, "chunk")
